@@ -46,5 +46,13 @@ if 'E2E' in ob and 'C08' in ob:
     for t in ob['E2E']['theorems']:
         if t not in ob['C08']['theorems']:
             ob['C08']['theorems'].append(t)
+# likewise the cube / distance-dependent pipeline model is an additional stage of C02's check
+if 'E2E3' in ob and 'C02' in ob:
+    for m in ob['E2E3']['modules']:
+        if m not in ob['C02']['modules']:
+            ob['C02']['modules'].append(m)
+    for t in ob['E2E3']['theorems']:
+        if t not in ob['C02']['theorems']:
+            ob['C02']['theorems'].append(t)
 json.dump(ob, open(V + '/lean/obligations.json', 'w'), indent=1)
 print('modules', len(mods), 'handlers', handlers, 'obligations', sorted(ob))
